@@ -161,6 +161,9 @@ var (
 	yieldRand *Rand
 )
 
+// YieldSleepMax bounds the simulated time a descheduled goroutine loses at a yield point.
+var YieldSleepMax = 3 * time.Millisecond
+
 func SetYield(p float64, seed uint64) { YieldP, yieldRand = p, NewRand(seed^0x7969656c64) }
 
 func Yield() {
@@ -169,7 +172,13 @@ func Yield() {
 	}
 	if yieldRand.Chance(YieldP) {
 		yields++
-		runtime.Gosched()
+		if yieldRand.Chance(0.3) {
+			// the goroutine is descheduled for a little simulated time (CPU work otherwise
+			// takes none, so critical sections of independent goroutines would never overlap)
+			time.Sleep(yieldRand.Dur(0, YieldSleepMax))
+		} else {
+			runtime.Gosched()
+		}
 	}
 }
 
